@@ -689,6 +689,11 @@ def op_textframe_fmt(run):
 def op_run_hyperlink(run):
     r = a_run(run)
     url = run.rnd.choice(["http://a.example/x?y=1&z=2", "http://a.example/x?y=1&z=2", "https://b.example/<q>", "mailto:x@y.z", None, None])
+    if run.rnd.random() < 0.06:
+        # an address XML cannot hold (pasted text with a vertical tab, a NUL, a lone surrogate): either refused here with
+        # ValueError, or every later save must still work - what may not happen is a save that dies half-way
+        run.acc.count("hyperlink_addresses_with_a_character_xml_cannot_hold")
+        url = run.rnd.choice(["http://a.example/x\x0by", "http://a.example/\x00", "http://a.example/\ud800"])
     r.hyperlink.address = url
     again = url is not None and run.rnd.random() < 0.3
     if again:  # the same value assigned once more (idempotent by any reading of the API)
@@ -1213,7 +1218,7 @@ ALL_OPS = {
     "font": (op_font, (VE, TE)),
     "paragraph_fmt": (op_paragraph_fmt, (VE, TE)),
     "textframe_fmt": (op_textframe_fmt, (VE, TE)),
-    "run_hyperlink": (op_run_hyperlink, NONE),
+    "run_hyperlink": (op_run_hyperlink, (VE,)),
     "hyperlink_share": (op_hyperlink_share, NONE),
     "fill": (op_fill, (TE, VE)),
     "line": (op_line, (VE, TE)),
